@@ -995,9 +995,16 @@ def ct_case(kd, scheme, cfg, ct, acc):
     return exp, res
 
 
-def ct_candidates(kd):
+def ct_candidates(kd, scheme, cfg):
+    """the basis is a ciphertext that is VALID for the scheme/configuration under test (when the key is large
+    enough for it), so that accepting a wrong length or an unreduced integer would show as a plaintext"""
     k, n = kd["k"], kd["n"]
     em = b"\x00\x02" + bytes(FILL[i % 8] for i in range(k - 3)) + b"\x00"      # valid v1.5 block, empty message
+    if scheme == "oaep":
+        hn, mgfh, label = cfg_ref(cfg)
+        hl = R.hash_len(hn)
+        if k >= 2 * hl + 2:
+            em = R.eme_oaep_encode(b"M"[:k - 2 * hl - 2], k, seeded("c07ctseed/%s" % kd["name"], hl), label, hn, mgfh)
     good = R.i2osp(R.rsaep(n, kd["e"], R.os2ip(em)), k)
     out = [("len0", b""), ("len1", b"\x01"), ("k-1:truncated-front", good[1:]), ("k-1:truncated-back", good[:-1]),
            ("k+1:zero-prepended", b"\x00" + good), ("k+1:zero-appended", good + b"\x00"), ("2k", good + good),
@@ -1017,9 +1024,9 @@ def ct_worker(shards):
     keys = _KEYS
     for (kname, cfgs) in shards:
         kd = keys[kname]
-        cands = ct_candidates(kd)
-        for nm, ct in cands:
-            for scheme, cfg in [("v15", None)] + [("oaep", c) for c in cfgs]:
+        for scheme, cfg in [("v15", None)] + [("oaep", c) for c in cfgs]:
+            cands = ct_candidates(kd, scheme, cfg)
+            for nm, ct in cands:
                 acc.count("evaluations")
                 exp, res = ct_case(kd, scheme, cfg, ct, acc)
                 acc.seen("classes", ("ct", kd["k"], scheme, cfg_ref(cfg)[0] if cfg else "", nm, exp, res))
@@ -1104,16 +1111,17 @@ def run(ctx):
             for b1 in hdr_vals:
                 for lo, hi in split_range(1 << (L - 2), 1 << max(0, L - 2 - 14)):
                     sh.append((L, b0, b1, None, lo, hi, (0, 1, L, L + 1)))
-    if q:
-        for L in (16, 17):                       # good header only, two sentinel lengths
-            for lo, hi in split_range(1 << (L - 2), 4):
-                sh.append((L, 0, 2, None, lo, hi, (0, 1)))
+    more_L = (16, 17) if q else (19, 20)         # good header only
+    for L in more_L:
+        for lo, hi in split_range(1 << (L - 2), 4 if q else 32):
+            sh.append((L, 0, 2, None, lo, hi, (0, 1) if q else (0, 1, L, L + 1)))
     for L in (12, 13):                           # other non-zero filler values
         for fill in (0x01, 0x80, 0xFF):
             sh.append((L, 0, 2, fill, 0, 1 << (L - 2), (0, 1, L, L + 1)))
     grid["c-v15"] = ("len %d..%d x header {00,01,02,FF}^2 x all zero subsets x expected_pt_len 0..len-10 x sentinel len {0,1,len,len+1}"
                      % (full_L[0], full_L[-1])) + (
-        "; len 16,17 x header 00 02 x all zero subsets x expected_pt_len 0..len-10 x sentinel len {0,1}" if q else "") + \
+        "; len 16,17 x header 00 02 x all zero subsets x expected_pt_len 0..len-10 x sentinel len {0,1}" if q else
+        "; len 19,20 x header 00 02 x all zero subsets x expected_pt_len 0..len-10 x sentinel len {0,1,len,len+1}") + \
         "; len 12,13 x fillers {01,80,FF}"
     timed("c-v15", c_v15_worker, [[s] for s in sh])
 
@@ -1188,7 +1196,7 @@ def run(ctx):
         sh += [[("short", "k48", d, A4, (f, ), V("sha1", "few")[:7])] for f in A4]
         sh += [[("short", "k48", ["md5", "sha1", b"L", True], A4[:2], (f, ), V("md5", "min"))] for f in A4[:2]]   # 15 bytes over {00,01}
     longs = [("k64", sha1), ("k128", sha256), ("k129", d)] if q else \
-        [("k64", sha1), ("k64", ["md5", "sha256", b"L", False]), ("k64", sha256), ("k128", sha1), ("k128", sha256),
+        [("k64", sha1), ("k64", ["md5", "sha256", b"L", False]), ("k128", sha1), ("k128", sha256),
          ("k128e3", ["sha1", "sha256", asc(64, 0x41), True]), ("k129", d), ("k129", sha256), ("k128", ["sha384", None, None, False])]
     for kname, cfg in longs:
         np_ = 4 if keys[kname]["k"] <= 64 else 16
